@@ -66,7 +66,12 @@ def ctor_sub(chk, rng, w, wid, sym, plan=None):
             x = F(int(x))
         e, kind = enc_amount(rng, x, (kind,))
     via = rng.choice(["factory", "type", "mul", "rmul"])
-    if via == "factory":
+    if kind == "numstr" and rng.random() < 0.5:
+        # the same spelling of the amount inside amount-and-symbol text
+        via = rng.choice(["text", "typed-text"])
+        c = ["c", QUANTITY if via == "text" else typed(sym),
+             [["s", "%s %s" % (e[1].strip(), sym)]]]
+    elif via == "factory":
         c = Q(e, sym)
     elif via == "type":
         c = ["c", typed(sym), [e, U(sym)]]
@@ -319,8 +324,12 @@ def run(chk, R, tier, seed):
     for c in MALFORMED_CLASSES:
         chk.require("malformed|" + c)
     chk.require("worlds")
-    w = predefined_world()
-    syms = list(SI.UNITS)
+    # the predefined catalogue plus three currencies (the quantum of money
+    # comes from the unit, not from the type)
+    w = predefined_world({"EUR": 2, "JPY": 0, "BHD": 3})
+    syms = list(SI.UNITS) + ["EUR", "JPY", "BHD"]
+    prelude18 = [{"e": M(["g", "quantity.money:Money"], "register_currency",
+                         ["s", c])} for c in ("EUR", "JPY", "BHD")]
     wrap = lambda jd: (lambda obs, rec, case: jd(obs))      # noqa: E731
     cases = []
     per = 20 if tier == "quick" else 120
@@ -332,7 +341,7 @@ def run(chk, R, tier, seed):
     for _ in range(500 if tier == "quick" else 8000):
         st, jd = malformed_sub(chk, rng, w, "predefined", rng.choice(syms))
         cases.append(Case(st, wrap(jd)))
-    run_cases(chk, R, cases, per_program=80)
+    run_cases(chk, R, cases, per_program=80, prelude=prelude18)
     # synthetic worlds with awkward symbols
     nw = 50 if tier == "quick" else 400
     cases = []
